@@ -136,14 +136,14 @@ func genScenario(r *core.Run) *scenario {
 		} else {
 			txt = g.PolicyText()
 		}
-		var p cedar.Policy
-		if err := p.UnmarshalCedar([]byte(txt)); err != nil {
+		pp, how, err := gen.ParsePolicy(r.T, txt)
+		if err != nil {
 			r.Count("gen.policy_parse_failure")
 			continue
 		}
 		sc.ids = append(sc.ids, cedar.PolicyID(fmt.Sprintf("p%d", i)))
-		sc.texts = append(sc.texts, txt)
-		sc.pols = append(sc.pols, &p)
+		sc.texts = append(sc.texts, txt+"   // built via "+how)
+		sc.pols = append(sc.pols, pp)
 	}
 	switch x := r.T.Intn(8); {
 	case x == 7:
